@@ -167,7 +167,7 @@ def run(ctx: Ctx, driver: Driver):
         one("bitflip-enc", ident, eph, acc, [m2[0], m2[1], (5, bytes(e))], M4, False, to_model=(bit % 5 == 0))
     for _ in range(ctx.budget(150, 3000)):
         ident, eph, acc, ios_pk, m2 = fresh()
-        kind = rng.choice(["byte-enc", "resealed-sub-bitflip", "wrong-ltsk", "wrong-id", "permuted-transcript", "other-exchange", "remove-pk", "remove-enc", "remove-sig", "remove-id",
+        kind = rng.choice(["byte-enc", "resealed-sub-bitflip", "wrong-ltsk", "wrong-id", "id-case-variant", "id-prefix", "id-padded", "permuted-transcript", "other-exchange", "remove-pk", "remove-enc", "remove-sig", "remove-id",
                            "short-key", "long-key", "trunc-enc", "state-4", "state-missing-err", "m4-error", "m4-state", "low-order-key", "dup-garbage-last", "empty-enc", "swap-fields"])
         mm2, mm4, legit = list(m2), list(M4), False
         if kind == "byte-enc":
@@ -184,6 +184,13 @@ def run(ctx: Ctx, driver: Driver):
             mm2 = acc.m2(ios_pk, ltsk=ed25519.Ed25519PrivateKey.from_private_bytes(rb(32)))
         elif kind == "wrong-id":
             mm2 = acc.m2(ios_pk, pid=b"99:99:99:99:99:99")
+        elif kind in ("id-case-variant", "id-prefix", "id-padded"):
+            # an identifier that only *resembles* the stored one, signed correctly by the genuine long-term key over itself
+            sid = ident.acc_id
+            var = {"id-case-variant": sid.swapcase(), "id-prefix": sid[:-1], "id-padded": sid + b" "}[kind]
+            if var == sid:
+                continue
+            mm2 = acc.m2(ios_pk, pid=var)
         elif kind == "permuted-transcript":
             mm2 = acc.m2(ios_pk, permute=True)
         elif kind == "other-exchange":
